@@ -35,9 +35,8 @@ def ResE.toRes {α τ : Type} : ResE α τ → Res α
 
 def opOf (isSub : Bool) : BinOp := if isSub then .sub else .add
 
-/-- `neutralize_raw` -/
-def neutralizeRawE : Arg → ResE (Bool × Arg) Arg
-  | .bin op l r =>
+/-- the passes of `neutralize_raw` on a binary node -/
+def neutralizeBinE (op : BinOp) (l r : Arg) : ResE (Bool × Arg) Arg :=
     if op = .add ∨ op = .sub then
       -- the `while` loop has run: operator `opOf s.1`, rhs `s.2.1`
       let s := stripNeg (op = .sub) r
@@ -62,6 +61,17 @@ def neutralizeRawE : Arg → ResE (Bool × Arg) Arg
       if isBad l then .err (.badType l.ty op.argTy) (.bin op l r)
       else if isBad r then .err (.badType r.ty op.argTy) (.bin op l r)
       else .ok (false, neutralMain op l r)
+
+def swappedE : ResE (Bool × Arg) Arg → ResE (Bool × Arg) Arg
+  | .ok (_, a) => .ok (true, a)
+  | r => r
+
+/-- `neutralize_raw` (the swap has been written into the tree before anything can fail) -/
+def neutralizeRawE : Arg → ResE (Bool × Arg) Arg
+  | .neg (.bin .sub l r) => swappedE (neutralizeBinE .sub r l)
+  | .bin .sub (.const c) (.bin .sub l r) =>
+    if c = 0 then swappedE (neutralizeBinE .sub r l) else neutralizeBinE .sub (.const c) (.bin .sub l r)
+  | .bin op l r => neutralizeBinE op l r
   | a => .ok (false, a)
 
 mutual
@@ -82,7 +92,11 @@ def neutralizeE : Arg → ResE (Bool × Arg) Arg
     | .panic => .panic
   | .neg v =>
     match neutralizeE v with
-    | .ok (c, v') => .ok (c, .neg v')
+    | .ok (c, v') =>
+      match neutralizeRawE (.neg v') with
+      | .ok (c3, a) => .ok (c || c3, a)
+      | .err e t => .err e t
+      | .panic => .panic
     | .err e v' => .err e (.neg v')
     | .panic => .panic
   | .not v =>
